@@ -5,7 +5,7 @@
 # Writes /verif/seeded/<ID><suffix>/{patch.diff,demo/,notes.md,confirm.log}; meta.json is written by hand afterwards.
 set -u
 ID="$1"; SUF="${2:-}"
-SRC=/tmp/seed/$ID/out
+SRC=${SEEDROOT:-/tmp/seed}/$ID/out
 . /verif/goenv.sh
 W=/tmp/confirm/$ID$SUF
 rm -rf "$W"; mkdir -p "$W"
